@@ -16,6 +16,11 @@ SECP_N = 0xFFFFFFFFFFFFFFFFFFFFFFFFFFFFFFFEBAAEDCE6AF48A03BBFD25E8CD0364141
 SECP_G = (0x79BE667EF9DCBBAC55A06295CE870B07029BFCDB2DCE28D959F2815B16F81798,
           0x483ADA7726A3C4655DA4FBFC0E1108A8FD17B448A68554199C47D08FFB10D4B8)
 BLS_X = -0xd201000000010000
+# EIP-197 generator of the alt_bn128 twist subgroup: x = x0 + x1 i, y = y0 + y1 i
+BN_G2 = ((10857046999023057135944570762232829481370756359578518086990519993285655852781,
+          11559732032986387107991004021392285783925812861821192530917403151452391805634),
+         (8495653923123431417604973247489272438418190587263600148770280649306958101930,
+          4082367875863433681332203403145435568316851327593401208105741076214120093531))
 
 BLS_G1 = (0x17f1d3a73197d7942695638c4fa9ac0fc3688c4f9774b905a14e3a3f171bac586c55e83ff97a1aeffb3af00adb22c6bb,
           0x08b3f481e3aaa0f1a09e30ed741d8ae4fcf5e095d5d00af600db18cb2c04b3edd03cc744a2888ae40caa232946c5e7e1)
@@ -572,3 +577,49 @@ def g2_points_y_boundary(n=3):
         if P is not None:
             out.append(P)
     return out
+
+
+# ------------------------------------------------------------------ roots of a polynomial over GF(p) (for isogeny kernels)
+def _ppowmod(base, e, f, p):
+    r = [1]
+    b = _pdivmod(base, f, p)[1]
+    while e > 0:
+        if e & 1:
+            r = _pdivmod(_pmul(r, b, p), f, p)[1]
+        b = _pdivmod(_pmul(b, b, p), f, p)[1]
+        e >>= 1
+    return r
+
+
+def _pgcd(a, b, p):
+    a, b = _ptrim([x % p for x in a]), _ptrim([x % p for x in b])
+    while b:
+        a, b = b, _pdivmod(a, b, p)[1]
+    if a:
+        inv = pow(a[-1], -1, p)
+        a = [x * inv % p for x in a]
+    return a
+
+
+def poly_roots_fp(f, p, rng):
+    """all roots in GF(p) of the polynomial f (coefficient list, lowest degree first)"""
+    f = _ptrim([x % p for x in f])
+    xp = _ppowmod([0, 1], p, f, p)
+    g = _pgcd(f, _psub(xp, [0, 1], p), p)       # product of the distinct linear factors
+    roots, stack = [], [g]
+    while stack:
+        h = stack.pop()
+        if len(h) <= 1:
+            continue
+        if len(h) == 2:
+            roots.append((-h[0] * pow(h[1], -1, p)) % p)
+            continue
+        while True:
+            a = rng.randrange(p)
+            t = _ppowmod([a, 1], (p - 1) // 2, h, p)
+            d = _pgcd(h, _psub(t, [1], p), p)
+            if 1 < len(d) < len(h):
+                stack.append(d)
+                stack.append(_pdivmod(h, d, p)[0])
+                break
+    return sorted(roots)
